@@ -47,7 +47,7 @@ def run(ctx):
     for k in range(ctx.n(51, 408)):
         sat = sats[k % len(sats)]
         chan = 3 + (k // len(sats)) % 3
-        n = rng.choice([56, 60, 120, 300])
+        n = rng.choice([56, 60, 120, 300, 47, 48, 49, 50])      # + 4: incl. 51 / 52 / 53 lines, either side of the smoothing-window switch
         kelvin = rng.uniform(285.5, 304.5)
         base = prt_count_for(tab, sat, kelvin)
         phase = rng.randrange(5)
